@@ -74,6 +74,8 @@ def enc_labels(labels):
 
 def enc_op(op):
     k = op[0]
+    if k == "x":        # (canonical form only; error-path calls are never sent to the driver)
+        return "x," + common.hexs(json.dumps(jsonable(list(op)), sort_keys=True))
     if k == "f":
         return f"f,{_x(float(op[1]))},{'-' if op[2] is None else _x(float(op[2]))}"
     if k == "fl":
@@ -97,7 +99,8 @@ def enc_op(op):
 
 
 def enc_case(edges, ops):
-    return "hist\t" + ";".join(f2h(e) for e in edges) + "\t" + "|".join(enc_op(o) for o in ops)
+    """(error-path calls ("x", …) are outside the model: it is given the other calls only)"""
+    return "hist\t" + ";".join(f2h(e) for e in edges) + "\t" + "|".join(enc_op(o) for o in ops if o[0] != "x")
 
 
 # ------------------------------------------------------------------ running the real class
@@ -159,49 +162,169 @@ def _hows(op):
     return a, (b or ("array" if a == "array" else "list"))
 
 
+# ---- call forms.  The documented parameter order (docstrings / signatures of sparkx.Histogram at HEAD), hard-coded:
+# a signature change that re-binds positional arguments or changes a default shows as a wrong result.
+REQ = object()
+SIGNATURES = {
+    "Histogram": [("bin_boundaries", REQ)],
+    "add_value": [("value", REQ), ("weight", None)],
+    "scale_histogram": [("value", REQ)],
+    "set_error": [("own_error", REQ)],
+    "set_systematic_error": [("own_error", REQ)],
+    "add_bin": [("index", REQ), ("bin_edge", REQ)],
+    "remove_bin": [("index", REQ)],
+    "average_weighted": [("weights", REQ)],
+    "write_to_file": [("filename", REQ), ("hist_labels", REQ), ("comment", ""), ("columns", None)],
+    "add_histogram": [], "statistical_error": [], "make_density": [], "average": [], "average_weighted_by_error": [],
+}
+CALL_FORMS = ("positional", "positional-defaults-explicit", "keywords", "keywords-defaults-explicit", "mixed", "mixed-defaults-explicit")
+
+
+def call_form(salt):
+    import zlib
+    return CALL_FORMS[zlib.crc32(repr(salt).encode()) % len(CALL_FORMS)]
+
+
+def bind(method, given, form):
+    """-> (args, kwargs): the call `method(**given)` written in the form `form`.  `given` maps parameter names to the
+    arguments the caller passes; parameters with a default that are not in `given` are left out, or — in the
+    '-defaults-explicit' forms — passed with the documented default value."""
+    sig = SIGNATURES[method]
+    names = [n for n, _ in sig]
+    vals = {k: v for k, v in given.items() if k in names}
+    if form.endswith("defaults-explicit"):
+        for n, d in sig:
+            if n not in vals and d is not REQ:
+                vals[n] = d
+    last = max([i for i, n in enumerate(names) if n in vals], default=-1)
+    npos = 0 if form.startswith("keywords") else max(1, (last + 1) // 2) if form.startswith("mixed") else last + 1
+    args = []
+    for n, d in sig[:min(npos, last + 1)]:
+        if n in vals:
+            args.append(vals[n])
+        elif d is not REQ:
+            args.append(d)          # a gap in the positional prefix: the documented default
+        else:
+            break
+    done = names[:len(args)]
+    kwargs = {k: v for k, v in vals.items() if k not in done}
+    kwargs.update({k: v for k, v in given.items() if k not in names})     # (error-path calls: unknown keywords)
+    return args, kwargs
+
+
+def invoke(target, method, given, salt=None, form=None):
+    """call `target.method` (or the class `target` itself for method 'Histogram') with the arguments `given` in one of
+    the equivalent call forms, chosen by a process-independent hash of `salt` (the op)"""
+    args, kwargs = bind(method, given, form or call_form((method, salt)))
+    f = target if method == "Histogram" else getattr(target, method)
+    return f(*args, **kwargs)
+
+
+OPMETHOD = dict(f="add_value", fl="add_value", ah="add_histogram", sc="scale_histogram", sl="scale_histogram",
+                se="statistical_error", md="make_density", er="set_error", sy="set_systematic_error", ab="add_bin",
+                rb="remove_bin", av="average", aw="average_weighted", ae="average_weighted_by_error", wr="write_to_file")
+
+
+def _materialise(v, tmp):
+    """arguments of an error-path call as Python objects: JSON values as they are, {"__tuple__": [...]} -> tuple,
+    {"__array__": [...]} -> numpy array, "<tmpfile>" / "<dir>" / "<missing-dir>/f.csv" -> paths"""
+    if isinstance(v, dict) and set(v) == {"__tuple__"}:
+        return tuple(_materialise(x, tmp) for x in v["__tuple__"])
+    if isinstance(v, dict) and set(v) == {"__array__"}:
+        return np.array(v["__array__"])
+    if isinstance(v, dict):
+        return {k: _materialise(x, tmp) for k, x in v.items()}
+    if isinstance(v, list):
+        return [_materialise(x, tmp) for x in v]
+    if v == "<tmpfile>":
+        return tmp("file")
+    if v == "<dir>":
+        return tmp("dir")
+    if v == "<missing-dir>/f.csv":
+        return tmp("dir") + "/no-such-directory/f.csv"
+    return v
+
+
+def op_method(op):
+    return op[1] if op[0] == "x" else OPMETHOD.get(op[0], op[0])
+
+
 def apply_op(h, op, tmpdir=None):
-    """apply one op to a real Histogram; returns extra observation (for 'wr') or None; raises what the code raises"""
+    """apply one op to a real Histogram; returns extra observation (for 'wr') or None; raises what the code raises.
+    Every call is written in one of the equivalent call forms (`invoke`), fixed by the content of the op.
+    ("x", method, [[name, value], ...], flags): an error-path call outside the model — arbitrary (JSON) arguments,
+    flag "warn" = issued under warnings.simplefilter("error")."""
     k = op[0]
     how, whow = _hows(op)
+    salt = jsonable(list(op))
+
+    def call(method, **given):
+        return invoke(h, method, given, salt)
+
+    if k == "x":
+        import os
+        import shutil
+        import tempfile
+        made = []
+
+        def tmp(kind):
+            if kind == "dir":
+                d = tempfile.mkdtemp(dir=tmpdir)
+                made.append(d)
+                return d
+            fd, fn = tempfile.mkstemp(suffix=".csv", dir=tmpdir)
+            os.close(fd)
+            made.append(fn)
+            return fn
+        given = {n: _materialise(v, tmp) for n, v in op[2]}
+        flags = op[3] if len(op) > 3 else []
+        try:
+            with warnings.catch_warnings():
+                warnings.simplefilter("error" if "warn" in flags else "ignore")
+                invoke(h, op[1], given, salt)
+        finally:
+            for m in made:
+                shutil.rmtree(m, ignore_errors=True) if os.path.isdir(m) else (os.path.exists(m) and os.unlink(m))
+        return None
     if k == "f":
         v = _scalar(op[1], how)
         if op[2] is None:
-            h.add_value(v)
+            call("add_value", value=v)
         else:
-            h.add_value(v, weight=_scalar(op[2], whow if whow in SCALAR_HOWS else "float"))
+            call("add_value", value=v, weight=_scalar(op[2], whow if whow in SCALAR_HOWS else "float"))
     elif k == "fl":
         vals = _container(op[1], how)
         w = op[2]
         if w is None:
-            h.add_value(vals)
+            call("add_value", value=vals)
         elif w[0] == "s":
-            h.add_value(vals, weight=w[1])
+            call("add_value", value=vals, weight=w[1])
         else:
-            h.add_value(vals, weight=_container(w[1], whow))
+            call("add_value", value=vals, weight=_container(w[1], whow))
     elif k == "ah":
-        h.add_histogram()
+        call("add_histogram")
     elif k == "sc":
-        h.scale_histogram(_scalar(op[1], how))
+        call("scale_histogram", value=_scalar(op[1], how))
     elif k == "sl":
-        h.scale_histogram(_container(op[1], how))
+        call("scale_histogram", value=_container(op[1], how))
     elif k == "se":
-        h.statistical_error()
+        call("statistical_error")
     elif k == "md":
-        h.make_density()
+        call("make_density")
     elif k == "er":
-        h.set_error(_container(op[1], how))
+        call("set_error", own_error=_container(op[1], how))
     elif k == "sy":
-        h.set_systematic_error(_container(op[1], how))
+        call("set_systematic_error", own_error=_container(op[1], how))
     elif k == "ab":
-        h.add_bin(op[1], op[2])
+        call("add_bin", index=op[1], bin_edge=op[2])
     elif k == "rb":
-        h.remove_bin(op[1])
+        call("remove_bin", index=op[1])
     elif k == "av":
-        h.average()
+        call("average")
     elif k == "aw":
-        h.average_weighted(_container(op[1], how))
+        call("average_weighted", weights=_container(op[1], how))
     elif k == "ae":
-        h.average_weighted_by_error()
+        call("average_weighted_by_error")
     elif k == "wr":
         import os
         import tempfile
@@ -209,7 +332,12 @@ def apply_op(h, op, tmpdir=None):
         os.close(fd)
         try:
             comment = op[3] if len(op) > 3 else ""
-            h.write_to_file(fn, op[2], comment=comment, columns=None if op[1] is None else list(op[1]))
+            given = dict(filename=fn, hist_labels=op[2])
+            if comment != "":
+                given["comment"] = comment
+            if op[1] is not None:
+                given["columns"] = list(op[1])
+            invoke(h, "write_to_file", given, jsonable([op[0], op[1], op[2], comment]))
             with open(fn, newline="") as f:        # no newline translation: header texts may hold line breaks
                 return parse_csv(f.read())
         finally:
@@ -219,13 +347,19 @@ def apply_op(h, op, tmpdir=None):
     return None
 
 
+class Blocks(list):
+    """the parsed file: a list of (header cells, rows of floats); `.comments` = the '#' lines"""
+    comments = ()
+
+
 def parse_csv(text):
     """blocks = (header cells, rows of floats); blocks end with an empty line; '#' lines are comments"""
     import csv
     import io
-    blocks, cur = [], None
+    blocks, cur, comments = Blocks(), None, []
     for row in csv.reader(io.StringIO(text)):
         if row and row[0].startswith("#"):
+            comments.append(",".join(row))
             continue
         if not row:
             if cur is not None:
@@ -238,6 +372,7 @@ def parse_csv(text):
             cur[1].append([float(c) for c in row])
     if cur is not None:
         blocks.append(cur)
+    blocks.comments = tuple(comments)
     return blocks
 
 
@@ -263,7 +398,11 @@ def make_hist(ctor):
     """ctor = ("tuple", lo, hi, n[, rep]) | ("list", edges[, rep]) | ("array", edges[, rep]): the same binning in the
     representation `rep` the caller uses (Python ints / floats / mixed, numpy scalars, int64 / int32 / float32 / float64
     arrays).  A representation that cannot hold the edges exactly falls back to floats: the VALUES never change."""
-    H = Histogram()
+    cls = Histogram()
+    salt = jsonable(list(ctor))
+
+    def H(x):
+        return invoke(cls, "Histogram", dict(bin_boundaries=x), salt)
     if ctor[0] == "tuple":
         rep = ctor[4] if len(ctor) > 4 else "as-is"
         lo, hi = (ctor[1], ctor[2]) if rep == "as-is" else (_scalar(ctor[1], rep), _scalar(ctor[2], rep))
@@ -426,20 +565,41 @@ def compare_obs(real, model, exact, arrays=("hist", "raw", "err", "scal", "sys")
     return None
 
 
+def init_obs(edges):
+    """the state of a new histogram as the driver would print it"""
+    nb = len(edges) - 1
+    return dict(nb=nb, nh=1, edges=list(edges), hist=[[0.0] * nb], raw=[[0.0] * nb], err=[[0.0] * nb], scal=[[1.0] * nb],
+                sys=[[0.0] * nb], centers=[(edges[i] + edges[i + 1]) / 2.0 for i in range(nb)],
+                widths=[edges[i + 1] - edges[i] for i in range(nb)])
+
+
 def compare_history(ctor, ops, answer, arrays=("hist", "raw", "err", "scal", "sys")):
-    """-> (None | description of first difference, index of the op)"""
+    """-> (None | description of first difference, index of the op).  An error-path call ("x", …) is not shown to the
+    model: it has to raise and to leave the object in the state the model has after the calls before it."""
     set_precision(ctor)
     edges0, real = run_real(ctor, ops)
     obs, spec = parse_answer(answer)
-    if obs is None or len(obs) != len(ops):
+    if obs is None or len(obs) != len([o for o in ops if o[0] != "x"]):
         return f"driver answered {answer[:200]}", -1, real, spec
     exact = True
-    for i, (op, r, m) in enumerate(zip(ops, real, obs)):
+    it = iter(obs)
+    last = ("ok", init_obs(edges0))
+    for i, (op, r) in enumerate(zip(ops, real)):
+        if op[0] == "x":
+            if not r[0].startswith("err"):
+                return None, -1, real, spec        # the call was accepted: not an error path, nothing to compare further
+            d = compare_obs(("ok", r[1]), ("ok", last[1]), exact, arrays)
+            if d:
+                return f"after the failed call {i} {op[1]}{op[2]} (raised {r[0]}) the object is not as before: {d}", i, real, spec
+            continue
+        m = next(it)
         if op[0] in INEXACT_OPS:
             exact = False
         d = compare_obs(r, m, exact, arrays)
         if d:
             return f"after op {i} {op[:3]}: {d}", i, real, spec
+        if op[0] != "wr":
+            last = m
     return None, -1, real, spec
 
 
@@ -525,7 +685,194 @@ def gen_scale(rng, nbins):
     return ("sl", cs, rng.choice(CONTAINER_HOWS[:-2]))
 
 
-def gen_history_c09(rng, edges, density=True):
+# ---- error paths
+BAD_ELEMENTS = ["a", None, [1.0], {"k": 1.0}]
+ALL_METHODS = ["add_value", "add_value", "add_value", "scale_histogram", "scale_histogram", "set_error", "set_error",
+               "set_systematic_error", "add_bin", "add_bin", "remove_bin", "average_weighted", "average_weighted",
+               "write_to_file", "write_to_file", "write_to_file", "add_histogram", "statistical_error", "make_density",
+               "average", "average_weighted_by_error"]
+
+
+def _is_num(x):
+    return isinstance(x, (int, float)) and x == x
+
+
+def _inside_value(rng, edges):
+    i = rng.randrange(len(edges) - 1)
+    return (edges[i] + edges[i + 1]) / 2
+
+
+def gen_error_call(rng, edges, nh=1, methods=None, front_only=False):
+    """an error-path call ("x", method, [[parameter, argument], …], flags): a call that has to raise, at different depths
+    of the method's work — rejected by the argument checks up front; a bad element (wrong type, NaN) at position 0 /
+    in the middle / at the end of the data, so that the elements before it may have been processed; an argument of
+    the wrong type; an unknown keyword; an unwritable path; a warning turned into an error (flag "warn").
+    front_only: only calls that fail before any element has been processed."""
+    nb = len(edges) - 1
+    methods = methods or ALL_METHODS
+    m = rng.choice(methods)
+    flags = []
+
+    def pos(n):
+        return 0 if front_only or n <= 1 else rng.choice([0, n // 2, n - 1])
+
+    def poisoned(xs, bads):
+        xs = list(xs)
+        if not xs:
+            return [rng.choice(bads)]
+        xs[pos(len(xs))] = rng.choice(bads)
+        return xs
+    given = None
+    if m == "add_value" and nb >= 1:
+        n = rng.randint(1, 5)
+        vals = [_inside_value(rng, edges) for _ in range(n)]
+        ws = [rng.choice([1.0, 0.5, 2.0, 3.0]) for _ in range(n)]
+        q = rng.randrange(9)
+        if q == 0:
+            given = [["value", poisoned(vals, BAD_ELEMENTS)]] + ([["weight", ws]] if rng.random() < 0.5 else [])
+        elif q == 1:
+            given = [["value", vals], ["weight", poisoned(ws, ["a", [1.0], NAN, {"k": 1.0}])]]
+        elif q == 2:
+            given = [["value", vals], ["weight", ws + [1.0] if rng.random() < 0.5 else ws[:-1]]]
+        elif q == 3:
+            given = [["value", rng.choice(["abc", None, {"__tuple__": vals}, {"v": 1.0}])]] + \
+                    ([["weight", rng.choice([1.0, ws])]] if rng.random() < 0.4 else [])
+        elif q == 4:
+            given = [["value", vals], ["weight", 2.0]]
+        elif q == 5:
+            given = [["value", vals[0]], ["weight", rng.choice([[1.0], "a", {"w": 1.0}])]]
+        elif q == 6:
+            out = rng.choice([edges[0] - 1.0, edges[-1] + 0.5])
+            flags = ["warn"]
+            if rng.random() < 0.3:
+                given = [["value", out]] + ([["weight", 2.0]] if rng.random() < 0.5 else [])
+            else:
+                vals[pos(n)] = out
+                given = [["value", vals]] + ([["weight", ws]] if rng.random() < 0.5 else [])
+        elif q == 7:
+            given = [["value", poisoned(vals, [NAN])]] + ([["weight", ws]] if rng.random() < 0.5 else [])
+        else:
+            given = [["value", vals], ["wieght", ws]]
+    elif m == "scale_histogram" and nb >= 1:
+        cs = [rng.choice([1.0, 2.0, 0.5, 3.0]) for _ in range(nb)]
+        given = [["value", rng.choice([poisoned(cs, ["a", None, [1.0]]), poisoned(cs, [-1.0, -0.5]), cs + [1.0], cs[:-1],
+                                       -2.0, [cs]])]]
+    elif m in ("set_error", "set_systematic_error"):
+        es = [rng.choice([1.0, 0.5, 2.0, 3.0]) for _ in range(nb)]
+        given = [["own_error", rng.choice([poisoned(es, ["a", "x y"]), poisoned(es, [[1.0], {"k": 1.0}]), es + [1.0], es[:-1] if es else 1.0,
+                                           {"__tuple__": es}, 1.0, None, [es, es]])]]
+    elif m == "add_bin":
+        i = rng.randint(0, nb)
+        hi = edges[i]
+        lo = edges[i - 1] if i > 0 else hi - 1.0
+        good = lo + (hi - lo) * 0.5
+        given = rng.choice([[["index", float(i)], ["bin_edge", good]], [["index", str(i)], ["bin_edge", good]],
+                            [["index", None], ["bin_edge", good]], [["index", i], ["bin_edge", str(good)]],
+                            [["index", i], ["bin_edge", None]], [["index", i], ["bin_edge", [good]]],
+                            [["index", -1], ["bin_edge", good]], [["index", nb + 1], ["bin_edge", edges[-1] + 1.0]],
+                            [["index", i], ["bin_edge", hi]], [["index", i], ["bin_edge", hi + 1e6]],
+                            [["index", i], ["bin_edge", lo - 1.0 if i > 0 else hi]], [["index", i]],
+                            [["index", i], ["bin_edge", good], ["edge", good]]])
+    elif m == "remove_bin":
+        given = rng.choice([[["index", 1.0]], [["index", "0"]], [["index", None]], [["index", [0]]], [["index", nb]],
+                            [["index", -1]], [["index", nb + 3]], [], [["index", 0], ["axis", 1]]])
+    elif m == "average_weighted":
+        ws = [rng.choice([1.0, 2.0, 0.5]) for _ in range(nh)]
+        given = [["weights", rng.choice([poisoned(ws, ["a", [1.0], {"k": 1.0}]), ws + [1.0], ws[:-1], [ws, ws] if nh > 1 else [[1.0, 1.0]],
+                                         ([1.0, -1.0] + [0.0] * (nh - 2)) if nh >= 2 else [0.0], "ab"])]]
+    elif m == "write_to_file":
+        full = [{c: f"h{k}:{c}" for c in ALL_COLS} for k in range(nh)]
+        q = rng.randrange(12)
+        ok = [["filename", "<tmpfile>"], ["hist_labels", full]]
+        if q == 0:
+            given = ok + [["columns", rng.choice([["bin_low", "foo"], ["foo"], ["distribution", 5]])]]
+        elif q == 1:
+            given = ok + [["columns", rng.choice(["bin_low", {"__tuple__": ["bin_low"]}, 3])]]
+        elif q == 2:
+            given = [["filename", "<tmpfile>"], ["hist_labels", rng.choice([full[0], "labels", None, [full[0], "x"], [["bin_low", "x"]]])]]
+        elif q == 3:
+            broken = [dict(d) for d in full]
+            del broken[-1][rng.choice(ALL_COLS)]
+            given = [["filename", "<tmpfile>"], ["hist_labels", broken]]
+        elif q == 4:
+            given = [["filename", "<tmpfile>"], ["hist_labels", []]]
+        elif q == 5:
+            given = [["filename", rng.choice(["<dir>", "<missing-dir>/f.csv", None, 5.0, ["f.csv"]])], ["hist_labels", full]]
+        elif q == 6:
+            given = ok + [["comment", rng.choice([None, 5, ["# c"]])]]
+        elif q == 7 and nh >= 3:
+            given = [["filename", "<tmpfile>"], ["hist_labels", full[:2]]]
+        elif q == 8 and nh >= 2:
+            given, flags = [["filename", "<tmpfile>"], ["hist_labels", full[:1]]], ["warn"]
+        elif q == 9:
+            given = [["hist_labels", full]]
+        elif q == 10:
+            given = ok + [["column", ["bin_low"]]]
+        else:
+            given = ok + [["columns", ["bin_low", "distribution"]], ["hist_labels2", full]]
+    if given is None:       # the methods without parameters (and the fall-backs): an argument too many
+        m = m if m in SIGNATURES else "add_histogram"
+        if SIGNATURES[m] and m not in ("add_histogram", "statistical_error", "make_density", "average", "average_weighted_by_error"):
+            m = rng.choice(["add_histogram", "statistical_error", "make_density", "average", "average_weighted_by_error"])
+        given = [[rng.choice(["value", "weights", "n", "index"]), rng.choice([1, 1.0, None, [1.0]])]]
+    return ("x", m, given, flags)
+
+
+def prefix_equivalent(op, edges, nb, last_err=None, last_sys=None):
+    """A failed call of one of the element-wise paths may have processed exactly the elements before the offending
+    one.  -> the VALID op with that effect, or None when the call has no such prefix (nothing may have changed)."""
+    def floats(xs):
+        return [float(x) for x in xs]
+    if op[0] == "fl":
+        w = op[2]
+        if w and w[0] == "l" and len(w[1]) == len(op[1]) and all(v == v for v in op[1]):
+            p = next((i for i, x in enumerate(w[1]) if x != x), None)
+            if p:
+                return ("fl", floats(op[1][:p]), ("l", floats(w[1][:p])), "list")
+        return None
+    if op[0] == "md":
+        return ("se",)      # make_density = zero test, statistical_error(), scale_histogram(...): the last step may refuse
+    if op[0] != "x":
+        return None
+    given = {n: v for n, v in op[2]}
+    flags = op[3] if len(op) > 3 else []
+    if set(given) - {n for n, _ in SIGNATURES.get(op[1], [])}:
+        return None         # unknown keyword: rejected by Python before the method runs
+    if op[1] == "add_value":
+        v, w = given.get("value"), given.get("weight")
+        if not (isinstance(v, list) and v and all(_is_num(x) for x in v)):
+            return None
+        if isinstance(w, list) and len(w) == len(v):
+            p = next((i for i, x in enumerate(w) if not _is_num(x)), None)
+            if p is None and "warn" not in flags:
+                return None
+        elif w is not None:
+            return None
+        else:
+            p = None
+        if "warn" in flags:
+            q = next((i for i, x in enumerate(v) if x < edges[0] or x > edges[-1]), None)
+            p = q if p is None else (p if q is None else min(p, q))
+        if not p:
+            return None
+        return ("fl", floats(v[:p]), None if w is None else ("l", floats(w[:p])), "list")
+    if op[1] in ("set_error", "set_systematic_error"):
+        e = given.get("own_error")
+        last = last_err if op[1] == "set_error" else last_sys
+        def num(x):
+            return isinstance(x, (int, float))
+        # (a nested list makes the conversion of the whole argument fail; strings / dicts are converted element by element)
+        if isinstance(e, list) and len(e) == nb and last is not None and all(num(x) or isinstance(x, (str, dict)) for x in e):
+            p = next((i for i, x in enumerate(e) if not num(x)), None)
+            if p:
+                return ("er" if op[1] == "set_error" else "sy", floats(e[:p]) + floats(last[p:]), "list")
+    return None
+
+
+C09_ERROR_METHODS = ["add_value", "add_value", "scale_histogram", "add_histogram", "statistical_error", "make_density"]
+
+
+def gen_history_c09(rng, edges, density=True, errors="front"):
     nb = len(edges) - 1
     ops = []
     for _ in range(rng.randint(1, 12)):
@@ -540,6 +887,8 @@ def gen_history_c09(rng, edges, density=True):
             ops.append(("se",))
         elif density:
             ops.append(("md",))
+        if errors and rng.random() < 0.1:
+            ops.append(gen_error_call(rng, edges, methods=C09_ERROR_METHODS, front_only=(errors == "front")))
     return ops
 
 
@@ -595,7 +944,9 @@ def oracle_c09(ctor, ops):
 
     def snapshot():
         return (np.array(h.histogram(), dtype=float).copy(), np.array(h.histogram_raw_counts(), dtype=float).copy(),
-                np.array(h.standard_error(), dtype=float).copy())
+                np.array(h.standard_error(), dtype=float).copy(), np.array(h.scaling_, dtype=float).copy(),
+                np.array(h.systematic_error_, dtype=float).copy(), np.array(h.bin_edges_, dtype=float).copy(),
+                np.array([h.number_of_bins_, h.number_of_histograms_], dtype=float))
 
     def same(a, b):
         return a.shape == b.shape and np.array_equal(a, b, equal_nan=True)
@@ -611,7 +962,30 @@ def oracle_c09(ctor, ops):
             raised = e
         after = snapshot()
         where = dict(op_index=n, op=list(op[:3]))
-        if k in ("f", "fl"):
+        changed = not all(same(a, b) for a, b in zip(before, after))
+        if k == "x" and raised is None:
+            return None         # the call was accepted: not an error path; this history is not followed further
+        if raised is not None and changed and k not in ("f", "fl"):
+            eq = prefix_equivalent(op, edges, nb) if k in ("x", "md") else None
+            if eq == ("se",):
+                want = np.sqrt(before[0])
+                if all(same(a, b) for j, (a, b) in enumerate(zip(before, after)) if j != 2) and same(after[2], want):
+                    continue
+                eq = None
+            if eq is None:
+                names = ("contents", "raw counts", "errors", "scaling", "systematic errors", "edges", "counters")
+                diff = [nm for nm, a, b in zip(names, before, after) if not same(a, b)]
+                return (f"error-path:object-changed-by-failed-call:{op_method(op)}",
+                        f"{op_method(op)} raised {type(raised).__name__} ({str(raised)[:80]}) but the object is not as it was "
+                        f"before the call: {diff} changed", dict(where, changed=diff))
+            # an element-wise path: exactly the elements before the offending one may have been processed
+            for v, x in zip(eq[1], eq[2][1] if eq[2] else [1.0] * len(eq[1])):
+                b = bin_of(edges, v)
+                if b is not None:
+                    add(b, x)
+        if k == "x":
+            pass
+        elif k in ("f", "fl"):
             vals = [op[1]] if k == "f" else list(op[1])
             w = op[2]
             if any(v != v for v in vals):
@@ -792,7 +1166,9 @@ def correspond(ctx):
                 "scale_histogram number/list, add_histogram, statistical_error, make_density) on uniform-tuple and "
                 "explicit non-uniform binnings of 1-8 bins, dyadic weights/factors, values bit-equal to edges, one ulp "
                 "beside them, outside, +-inf, NaN; compared after every call (contents, raw counts, errors, scaling, "
-                "centres, widths), bit-exact until the first make_density; non-trivial = some value bit-equal to an "
+                "centres, widths), bit-exact until the first make_density; error-path calls outside the model (bad element "
+                "at the front of the data, wrong types, unknown keywords, warnings-as-errors) mixed in: they have to raise "
+                "and leave the object in the model's state; every call in one of six equivalent call forms; non-trivial = some value bit-equal to an "
                 "edge and at least one weight list or scale call; distinct by canonical input")
     ctx.assumptions.append("np.digitize(v, edges) = #{e in edges | e <= v} for increasing edges; np.linspace gives "
                            "increasing edges (checked on every generated binning); np.sqrt = IEEE sqrt")
@@ -819,7 +1195,8 @@ def correspond(ctx):
         ctx.case(canon, nontriv, sample=dict(ctor=jsonable(ctor), ops=jsonable([o[:3] for o in ops]),
                                              last=jsonable(real[-1][1]["hist"]["data"]) if real else None))
         for o in ops:
-            ctx.count("op/" + o[0])
+            ctx.count("op/" + o[0] + (":" + o[1] if o[0] == "x" else ""))
+            ctx.count("call-form/" + call_form((op_method(o), jsonable(list(o)))))
         for t, _ in real:
             ctx.count("outcome/" + t)
         ctx.count("ctor/" + ctor_flavour(ctor))
@@ -891,7 +1268,7 @@ def search(ctx, budget_s):
     while time.time() - t0 < budget_s and n < limit:
         ctor = gen_ctor(rng)
         edges = [float(x) for x in make_hist(ctor).bin_edges_]
-        ops = gen_history_c09(rng, edges)
+        ops = gen_history_c09(rng, edges, errors="any")
         if n % 3 == 0:      # make sure filled-then-density histories are frequent
             ops = [o for o in ops if o[0] != "md"] + [("f", (edges[0] + edges[1]) / 2, None, "float"), ("md",)]
         r = oracle_c09(ctor, ops)
